@@ -70,9 +70,10 @@ def Keeps (G : List Blk) (db : DB) : Prop :=
 theorem keeps_step (cfg : Config) (hnew : cfg.matches .new = true) (hundo : cfg.matches .undo = true)
     (hirr : cfg.matches .irreversible = true) (U : Id → Option Blk) (hU : UOK U) (F : List Id)
     (s : FState) (P : List Id) (b : Blk) (hI : Inv s P) (hJ : Inv2 U F s.db) (hbU : U b.id = some b)
-    (hL : LibDeclOK s.db b) (G : List Blk) (hG : ∀ g ∈ G, U g.id = some g) (hK : Keeps G s.db) :
+    (hL : LibDeclOK s.db b) (hni : s.includeInit = false ∨ s.lastSent.isSome = true ∨ b.id ≠ s.db.libRef.id)
+    (G : List Blk) (hG : ∀ g ∈ G, U g.id = some g) (hK : Keeps G s.db) :
     Keeps (G ++ [b]) (processBlock cfg s b none).1.db := by
-  obtain ⟨_, _, _, _, _, hshape⟩ := processBlock_step cfg hnew hundo hirr s P b hI
+  obtain ⟨_, _, _, _, _, hshape⟩ := processBlock_step cfg hnew hundo hirr s P b hI hni
     (sentClosed_of_inv2 U F s.db hI.wf hI.heights hJ) (hU.wf b.id b hbU) (hb_of_inv2 U hU F s.db hJ b hbU) hL
   have hwf := hU.wf b.id b hbU
   rcases hshape with ⟨hsame, hwhy⟩ | ⟨hf, db2, hsb, hcase⟩
@@ -137,15 +138,16 @@ theorem keeps_step (cfg : Config) (hnew : cfg.matches .new = true) (hundo : cfg.
 theorem history_lookup_complete (cfg : Config) (hnew : cfg.matches .new = true) (hundo : cfg.matches .undo = true)
     (hirr : cfg.matches .irreversible = true) (U : Id → Option Blk) (hU : UOK U) (h : List Blk) (F : List Id)
     (s : FState) (P : List Id) (hI : Inv s P) (hJ : Inv2 U F s.db) (hin : ∀ b ∈ h, U b.id = some b)
-    (hL : Props.C01.LibHistOK cfg s h) (G : List Blk) (hG : ∀ g ∈ G, U g.id = some g) (hK : Keeps G s.db) :
+    (hL : Props.C01.LibHistOK cfg s h) (hincl : s.includeInit = false)
+    (G : List Blk) (hG : ∀ g ∈ G, U g.id = some g) (hK : Keeps G s.db) :
     Keeps (G ++ h) (runHistory cfg s h).1.db := by
   induction h generalizing s P F G with
   | nil => simpa [runHistory] using hK
   | cons b r ih =>
-    obtain ⟨P1, F1, _, hI1, hJ1⟩ :=
-      Props.C01.step_discipline_consistent cfg hnew hundo hirr U hU F s P b hI hJ (hin b (by simp)) hL.1
-    have hK1 := keeps_step cfg hnew hundo hirr U hU F s P b hI hJ (hin b (by simp)) hL.1 G hG hK
-    have := ih F1 _ P1 hI1 hJ1 (fun x hx => hin x (by simp [hx])) hL.2 (G ++ [b])
+    obtain ⟨P1, F1, _, hI1, hJ1, _⟩ :=
+      Props.C01.step_discipline_consistent cfg hnew hundo hirr U hU F s P b hI hJ (hin b (by simp)) hL.1 (Or.inl hincl)
+    have hK1 := keeps_step cfg hnew hundo hirr U hU F s P b hI hJ (hin b (by simp)) hL.1 (Or.inl hincl) G hG hK
+    have := ih F1 _ P1 hI1 hJ1 (fun x hx => hin x (by simp [hx])) hL.2 (by rw [processBlock_includeInit]; exact hincl) (G ++ [b])
       (by intro g hg; simp only [List.mem_append, List.mem_singleton] at hg
           rcases hg with hg | rfl
           · exact hG g hg
